@@ -12,6 +12,8 @@ import GLua.Proofs.PmScanner
 import GLua.Proofs.PmFragFind
 import GLua.Proofs.PmCapFind
 import GLua.Proofs.PmCapLimit
+import GLua.Proofs.PmCapGsub
+import GLua.Proofs.PmParseTotal
 
 namespace GLua.Props.C14
 open GLua GLua.Pm GLua.LuaPattern GLua.PmProofs
@@ -215,7 +217,7 @@ theorem vm_run_eq_reference (pat : List Nat) (hne : 0 < pat.length) (hfrag : inF
       compilePattern sq = .ok insts ∧
       ∀ (cap : Nat) (src : Array Nat) (s : Nat), s ≤ src.size → src.size + pat.length + 3 ≤ cap →
         RunAgrees src (splitAnchor pat).2 s (vm src insts cap (vmFuel src insts) 0 s 1 #[]) :=
-  frag_pipeline pat hne hfrag
+  frag_pipeline pat hne (inFragment_0 hfrag)
 
 /-- **vm_eq_reference, `string.find`**: for every pattern of the fragment, every subject with
     `|subject| + |pattern| + 3 ≤ 1000000` (the Model's recursion cap; beyond it gopher-lua raises
@@ -225,7 +227,7 @@ theorem vm_run_eq_reference (pat : List Nat) (hne : 0 < pat.length) (hfrag : inF
 theorem vm_eq_reference_items (pat subj : List Nat) (init : Int) (hfrag : inFragment pat = true)
     (hsz : subj.length + pat.length + 3 ≤ maxRecursionLevel) :
     modelFind pat subj init = specFind pat subj init :=
-  find_frag_eq pat subj init hfrag hsz
+  find_frag_eq pat subj init (inFragment_0 hfrag) hsz
 
 /-- non-vacuity: `^%a+.-b*c?%.$` is in the fragment … -/
 example : inFragment [94, 37, 97, 43, 46, 45, 98, 42, 99, 63, 37, 46, 36] = true := by decide
@@ -275,7 +277,7 @@ theorem vm_run_eq_reference_captures (pat : List Nat) (hne : 0 < pat.length) (hf
       compilePattern sq = .ok insts ∧
       ∀ (cap : Nat) (src : Array Nat) (s : Nat), s ≤ src.size → src.size + pat.length + 3 ≤ cap →
         RunAgreesC src (splitAnchor pat).2 T s (vm src insts cap (vmFuel src insts) 0 s 1 #[]) :=
-  fragC_pipeline pat hne hfrag
+  fragC_pipeline pat hne (inFragmentC_0 hfrag)
 
 /-- **vm_eq_reference with captures, `string.find`**: for every pattern of `inFragmentC`, every subject with
     `|subject| + |pattern| + 3 ≤ 1000000` and every init, the whole Model pipeline — scanner, parsePattern (recursive
@@ -286,14 +288,14 @@ theorem vm_run_eq_reference_captures (pat : List Nat) (hne : 0 < pat.length) (hf
 theorem vm_eq_reference_captures (pat subj : List Nat) (init : Int) (hfrag : inFragmentC pat = true)
     (hsz : subj.length + pat.length + 3 ≤ maxRecursionLevel) :
     modelFind pat subj init = specFind pat subj init :=
-  find_fragC_eq pat subj init hfrag hsz
+  find_fragC_eq pat subj init (inFragmentC_0 hfrag) hsz
 
 /-- **vm_eq_reference with captures, `string.match`**: the same for `string.match` (its own init arithmetic, the
     whole match when the pattern has no captures, the empty pattern included). -/
 theorem vm_eq_reference_captures_match (pat subj : List Nat) (init : Int) (hfrag : inFragmentC pat = true)
     (hsz : subj.length + pat.length + 3 ≤ maxRecursionLevel) :
     modelMatch pat subj init = specMatch pat subj init :=
-  match_fragC_eq pat subj init hfrag hsz
+  match_fragC_eq pat subj init (inFragmentC_0 hfrag) hsz
 
 /-- full statement of `vm_eq_reference_captures`, without the size guard -/
 def vm_eq_reference_captures_full : Prop :=
@@ -309,7 +311,7 @@ theorem vm_eq_reference_captures_full_fails : ¬ vm_eq_reference_captures_full :
   intro h
   have := h [97, 42] (List.replicate 1000000 97) 1 (by decide)
   rw [model_cap_witness] at this
-  exact specFind_total _ _ _ (by decide) this.symm
+  exact specFind_total _ _ _ (inFragmentC_0 (by decide)) this.symm
 
 /-- non-vacuity: `("  x1 "):match("^%s*(.-)%s*$")` = "x1"; `("abc"):match("b*", -1)` = "" … -/
 example : modelMatch [94, 37, 115, 42, 40, 46, 45, 41, 37, 115, 42, 36] [32, 32, 120, 49, 32] 1 = some [.str [120, 49]] ∧
@@ -334,7 +336,7 @@ example : modelFind [40, 97, 98, 41, 37, 49, 37, 98, 40, 41] [120, 97, 98, 97, 9
     `%bxy`, `%d`) and the token list obeys the capture discipline (`capsOK`) — the tree the Model's parser must build
     then exists (the `build` conjunct in the definition is implied). -/
 theorem fragment_captures_characterised (pat : List Nat) :
-    inFragmentC pat = true ↔
+    inFragmentC0 pat = true ↔
       ∃ toks tail, tokToks ((splitAnchor pat).2.length + 1) (splitAnchor pat).2 = some (toks, tail) ∧ capsOK 0 [] toks = true :=
   inFragmentC_iff pat
 
@@ -342,7 +344,7 @@ theorem fragment_captures_characterised (pat : List Nat) :
     `vm_eq_reference_items`; the literal `vm_eq_reference_partial` keeps its own value: it has no size guard — a
     literal program never nests more than three calls). -/
 theorem fragment_inclusion (pat : List Nat) (h : inFragment pat = true) : inFragmentC pat = true :=
-  inFragment_sub pat h
+  inFragment_subC h
 
 /-- non-vacuity: `^(a(b*)%2)()%b<>[%w_]-$`, `((a)(b))%3%2`, `(()x)` are in the fragment; … -/
 example : inFragmentC [94, 40, 97, 40, 98, 42, 41, 37, 50, 41, 40, 41, 37, 98, 60, 62, 91, 37, 119, 95, 93, 45, 36] = true ∧
@@ -352,5 +354,155 @@ example : inFragmentC [94, 40, 97, 40, 98, 42, 41, 37, 50, 41, 40, 41, 37, 98, 6
 /-- … a back-reference to an open capture `(a%1)`, an unclosed `(a`, a stray `)`, `%b` without two bytes, `%0` are not. -/
 example : inFragmentC [40, 97, 37, 49, 41] = false ∧ inFragmentC [40, 97] = false ∧ inFragmentC [97, 41] = false ∧
     inFragmentC [37, 98, 40] = false ∧ inFragmentC [37, 48] = false := by decide
+
+/-! ## vm_eq_reference for gmatch and gsub — assembled from the per-attempt theorem, scan_loop_spec and gsub_assembly -/
+
+/-- **vm_eq_reference_gmatch**: for every pattern of `inFragmentG` (= `inFragmentC` with a leading `^` read as a literal:
+    the Model escapes it, `"%" + pattern`, the reference's `gmatch_aux` never anchors), every subject with
+    `|subject| + |pattern| + 4 ≤ 1000000`: the tuples the Model's iterator closure yields when driven to exhaustion
+    (strGmatch: one `pm.Find` with limit −1; strGmatchIter: one tuple per call from the upvalue state, nothing once
+    exhausted) are exactly the tuples of the reference's successive `gmatch_aux` calls — the whole match when the pattern
+    has no captures, else every capture; leftmost matches, the next attempt at the end of the previous match, one byte
+    further after an empty match. -/
+theorem vm_eq_reference_gmatch (pat subj : List Nat) (hfrag : inFragmentG pat = true)
+    (hsz : subj.length + pat.length + 4 ≤ maxRecursionLevel) :
+    modelGmatch pat subj = specGmatch pat subj :=
+  gmatch_fragC_eq pat subj (inFragmentG_0 hfrag) hsz
+
+/-- non-vacuity: `("a1b22"):gmatch("%a(%d*)")` yields "1", "22"; `("ab"):gmatch("x*")` yields three empty matches
+    (positions 0, 1, 2); `("^a^"):gmatch("^a")` finds the caret literally -/
+example : modelGmatch [37, 97, 40, 37, 100, 42, 41] [97, 49, 98, 50, 50] = some [[.str [49]], [.str [50, 50]]] ∧
+    modelGmatch [120, 42] [97, 98] = some [[.str []], [.str []], [.str []]] ∧
+    modelGmatch [94, 97] [94, 97, 94] = some [[.str [94, 97]]] := by
+  rw [vm_eq_reference_gmatch _ _ (by decide) (by decide), vm_eq_reference_gmatch _ _ (by decide) (by decide),
+    vm_eq_reference_gmatch _ _ (by decide) (by decide)]
+  decide
+
+/-- **vm_eq_reference_gsub** (guarded): for every pattern of `inFragmentC`, every subject with
+    `|subject| + |pattern| + 3 ≤ 1000000`, every max_s (absent, positive, zero, negative) and every replacement —
+    a table (any lookup function), a function (any function of call index and arguments; nil/false keep the match,
+    strings and integers replace it, anything else is the error "invalid replacement value"), or a string in which
+    every `%` is followed by a digit or `%` (`replGuard`) — the Model's `string.gsub` returns exactly the reference's
+    result string and count (or both raise an error, e.g. `%2` with one capture).  Pieces: `fragC_scan` (per-attempt
+    theorem through `findLoop_scan` = scan_loop_spec), the per-match replacement (flagScanner state machine =
+    `add_s`; table key / function arguments = `push_captures`), and `doReplace_eq_splice` = gsub_assembly. -/
+theorem vm_eq_reference_gsub (pat subj : List Nat) (repl : Repl) (maxS : Option Int) (hfrag : inFragmentC pat = true)
+    (hsz : subj.length + pat.length + 3 ≤ maxRecursionLevel) (hrepl : replGuard repl) :
+    modelGsub pat subj repl maxS = specGsub pat subj repl maxS :=
+  gsub_fragC_eq pat subj repl maxS (inFragmentC_0 hfrag) hsz hrepl
+
+/-- non-vacuity: `("hello world"):gsub("(%w+)", "<%1>%%")` = "<hello>% <world>%", 2 -/
+example : modelGsub [40, 37, 119, 43, 41] [104, 105, 32, 121, 111] (.str [60, 37, 49, 62, 37, 37]) none =
+    some ([60, 104, 105, 62, 37, 32, 60, 121, 111, 62, 37], 2) := by
+  rw [vm_eq_reference_gsub _ _ _ _ (by decide) (by decide) (by show replOK _ = true; decide)]
+  decide
+
+/-- non-vacuity: a function replacement that numbers the matches, keeps the second (nil) and is limited to 3:
+    `("a,b,c,d"):gsub("%a", f, 3)` with f = 1, nil, 3 → "1,b,3,d", 3; a table replacement keyed by the first capture -/
+example : modelGsub [37, 97] [97, 44, 98, 44, 99, 44, 100] (.fn fun k _ => if k = 1 then .nil else .int (k + 1)) (some 3) =
+      some ([49, 44, 98, 44, 51, 44, 100], 3) ∧
+    modelGsub [40, 37, 97, 41, 61] [120, 61, 121, 61] (.tbl fun c => if c = .str [120] then .str [88] else .false) none =
+      some ([88, 121, 61], 2) := by
+  rw [vm_eq_reference_gsub _ _ _ _ (by decide) (by decide) (by exact trivial),
+    vm_eq_reference_gsub _ _ _ _ (by decide) (by decide) (by exact trivial)]
+  decide
+
+/-- full statement of `vm_eq_reference_gsub`, without the guard on the replacement string -/
+def vm_eq_reference_gsub_full : Prop :=
+  ∀ (pat subj : List Nat) (repl : Repl) (maxS : Option Int), inFragmentC pat = true →
+    subj.length + pat.length + 3 ≤ maxRecursionLevel → modelGsub pat subj repl maxS = specGsub pat subj repl maxS
+
+/-- false of the code: open finding C14-gsub-repl-percent-nondigit — `("abc"):gsub("%w", "%x")` is `xxx 3` in Lua 5.1
+    (`add_s` drops the `%`), `%x%x%x 3` in gopher-lua (strGsubStr keeps it; `_glua-tests/strings.lua` asserts it). -/
+theorem vm_eq_reference_gsub_full_fails : ¬ vm_eq_reference_gsub_full := by
+  intro h
+  have := h [37, 119] [97, 98, 99] (.str [37, 120]) none (by decide) (by decide)
+  have hs : specGsub [37, 119] [97, 98, 99] (.str [37, 120]) none = some ([120, 120, 120], 3) := by decide
+  have hm : modelGsub [37, 119] [97, 98, 99] (.str [37, 120]) none = some ([37, 120, 37, 120, 37, 120], 3) := by
+    simp [modelGsub, Pm.strGsub, strGsubStr, gsubStrOne, FlagScanner.next, capturedString, strGsubDoReplace,
+      strGsubDoReplace.go, find, liftErr, parseTop, parsePattern, parseClass, Scanner.peek, Scanner.next, Scanner.nextPos,
+      Scanner.save, Scanner.restore, Scanner.currentPos, Scanner.length, EOS, UNKNOWN, bind, Except.bind, pure, Except.pure,
+      isQuant, compilePattern, compileSeq, compilePat, findLoop, vm, vmFuel, setCapture, growTo, pushZeros, restoreCapture,
+      Class.Matches, singleMatches, btw, maxRecursionLevel, Pm.capture, isPosCapture, substr, throw, throwThe,
+      MonadExceptOf.throw, Array.setIfInBounds]
+  rw [hm, hs] at this
+  simp at this
+
+/-! ## patterns containing NUL — the byte-unrestricted fragments
+
+  `inFragment0` / `inFragmentC0` / `inFragmentG0` are the fragments without the "no NUL" conjunct (`inFragmentC pat =
+  !pat.contains 0 && inFragmentC0 pat`, …).  All proofs are about them: nothing in the Model treats the byte 0 specially, and
+  the Spec (Lean port) reads a pattern byte-transparently — the reading of lstrlib from 5.2 on, where the pattern length is
+  explicit.  lstrlib 5.1 itself reads the pattern as a C string: it would stop at the NUL (`("a\0b"):find("a\0b")` is
+  `1 1` there, `1 3` in gopher-lua), and the 5.1 manual excludes such patterns ("a pattern cannot contain embedded zeros.
+  Use %z instead").  So the statements below are NOT statements about lstrlib 5.1 on NUL patterns (no such equality can
+  hold); they say that gopher-lua treats NUL like any other byte, exactly as the byte-transparent matcher does. -/
+
+/-- find / match / gmatch / gsub on the byte-unrestricted fragments (see the section comment for what the Spec means here) -/
+theorem vm_eq_reference_bytes (pat subj : List Nat) (init : Int) (hfrag : inFragmentC0 pat = true)
+    (hsz : subj.length + pat.length + 3 ≤ maxRecursionLevel) :
+    modelFind pat subj init = specFind pat subj init ∧ modelMatch pat subj init = specMatch pat subj init ∧
+    (∀ (repl : Repl) (maxS : Option Int), replGuard repl → modelGsub pat subj repl maxS = specGsub pat subj repl maxS) :=
+  ⟨find_fragC_eq pat subj init hfrag hsz, match_fragC_eq pat subj init hfrag hsz,
+    fun repl maxS hr => gsub_fragC_eq pat subj repl maxS hfrag hsz hr⟩
+
+theorem vm_eq_reference_gmatch_bytes (pat subj : List Nat) (hfrag : inFragmentG0 pat = true)
+    (hsz : subj.length + pat.length + 4 ≤ maxRecursionLevel) : modelGmatch pat subj = specGmatch pat subj :=
+  gmatch_fragC_eq pat subj hfrag hsz
+
+/-- non-vacuity: `("a\0b\0"):find("(%z)b%z")` = 2 4 "\0" with a NUL in the subject; a NUL in the pattern: `("a\0b"):find("a\0b")` = 1 3 -/
+example : modelFind [40, 37, 122, 41, 98, 37, 122] [97, 0, 98, 0] 1 = some [.num 2, .num 4, .str [0]] ∧
+    modelFind [97, 0, 98] [97, 0, 98] 1 = some [.num 1, .num 3] := by
+  rw [(vm_eq_reference_bytes _ _ _ (by decide) (by decide)).1, (vm_eq_reference_bytes _ _ _ (by decide) (by decide)).1]
+  decide
+
+/-! ## pattern_total, the parser half — every byte string is parsed or rejected with a `*pm.Error` -/
+
+/-- **parser_total**: for EVERY byte string `p` (well-formed or not, any bytes), `parsePattern(newScanner(p), true)` —
+    scanner, parseClass, parseClassSet with its range merging, the recursive descent into captures — returns a parsed
+    pattern or a `*pm.Error` whose message is one of "unexpected EOS", "invalid capture index", "invalid ')'",
+    "unfinished capture".  It never raises a Go panic (no scanner index out of range, `set.Classes[len-2]` is always
+    in range because a pending range implies a non-empty class list) and its `for {}` loops terminate: the model's
+    fuel `2·|p|+8` is never exhausted (every iteration consumes a byte or returns).  Proof: the scanner only visits
+    the states "k bytes consumed" / "EOS returned" (`scK`), on which Next/Peek/Save/Restore are explicit functions
+    (this refines `scanner_safe`), and every recursive call is at a strictly later state. -/
+theorem parser_total (p : Array Nat) : (∃ sq, parseTop p = .ok sq) ∨ (∃ e, parseTop p = .error e ∧ PmErr e) :=
+  parseTop_total p
+
+/-- the compiler rejects only with `*pm.Error` "invalid capture index" (a back-reference to a capture that is not closed) -/
+theorem compile_total (sq : SeqPat) :
+    (∃ insts, compilePattern sq = .ok insts) ∨ (∃ e, compilePattern sq = .error e ∧ CompileErr e) :=
+  compilePattern_total sq
+
+/-- **find_total**: `pm.Find` on EVERY pattern, subject, offset, limit and recursion cap returns matches or a `*pm.Error`
+    (parser, compiler, recursion cap, invalid capture index) — never out of fuel (it terminates) and never a Go panic
+    other than the slice expression of `opNumber` (which `vm_run_eq_reference_captures` excludes on `inFragmentC`, and
+    fix C14-backref is meant to exclude everywhere — that last step is the one thing still open).  So a malformed pattern
+    is a Lua error (stringlib raises `err.Error()`) or, when the parser accepts it, an ordinary run of the VM. -/
+theorem find_total (cap : Nat) (p src : Array Nat) (offset : Nat) (limit : Int) :
+    FindOutcome (find cap p src offset limit) :=
+  find_outcome cap p src offset limit
+
+/-- non-vacuity: the four parser errors and the compiler error are reachable: `[a`, `(a`, `a)`, `%0`, `(a%1)` -/
+example : parseTop #[91, 97] = .error (.pm 1 "unexpected EOS") ∧ parseTop #[40, 97] = .error (.pm (-1) "unfinished capture") ∧
+    parseTop #[97, 41] = .error (.pm 0 "invalid ')'") ∧ parseTop #[37, 48] = .error (.pm 0 "invalid capture index") ∧
+    ((parseTop #[40, 97, 37, 49, 41]) >>= compilePattern) = .error (.pm UNKNOWN "invalid capture index") := by
+  refine ⟨?_, ?_, ?_, ?_, ?_⟩ <;> pm_eval
+
+/-! ## `%f` — the frontier pattern of lstrlib 5.1.5 is not implemented (open finding C14-frontier-unimplemented) -/
+
+/-- `("xf1"):find("%f[%d]")`: lstrlib 5.1.5 finds the empty frontier in front of the digit (`3 2`); gopher-lua reads `%f`
+    as the escaped letter `f` followed by the set and answers `2 3`.  The Spec now contains lstrlib's `case 'f'`; the
+    fragments exclude `%f`, and `vm_eq_reference_full` keeps its hypothesis `frontier = false`. -/
+theorem frontier_deviation :
+    specFind [37, 102, 91, 37, 100, 93] [120, 102, 49] 1 = some [.num 3, .num 2] ∧
+    modelFind [37, 102, 91, 37, 100, 93] [120, 102, 49] 1 = some [.num 2, .num 3] := by
+  refine ⟨by decide, ?_⟩
+  simp [modelFind, Pm.strFind, find, liftErr, luaIndex2StringIndexStart, parseTop, parsePattern, parseClass, parseClassSet,
+    parseClassSetLoop, Scanner.peek, Scanner.next, Scanner.nextPos, Scanner.save, Scanner.restore, Scanner.currentPos,
+    Scanner.length, EOS, UNKNOWN, bind, Except.bind, pure, Except.pure, isQuant, Class.isChar, compilePattern, compileSeq,
+    compilePat, findLoop, vm, vmFuel, setCapture, growTo, pushZeros, restoreCapture, Class.Matches, anyMatches,
+    singleMatches, btw, maxRecursionLevel, Pm.capture, pushCaps, isPosCapture, substr, throw, throwThe,
+    MonadExceptOf.throw, Array.setIfInBounds]
 
 end GLua.Props.C14
